@@ -9,7 +9,7 @@ PROPERTY = 'C08'
 LEVEL = 'exploration'
 RULE = ('1-3 G1 programs under hostile layout (multi-line strings/comments, LF/CR/CRLF/U+2028/U+2029, exotic white '
         'space) or repository snippets, given distinct sourcepaths and printed one after the other by one printer '
-        'object as io.write does, x printer in {pretty, minify, minify+drop_semi, minify+obfuscate, '
+        'object as io.write does - or, for two programs, the second tree spliced as a statement into a function body / block of the first (nested sourcepath) - x printer in {pretty, minify, minify+drop_semi, minify+obfuscate, '
         'minify+obfuscate+globals} x comment capture. Oracle, for every yielded fragment with positive line and '
         'column: the reference token (or comment) of that source file starting at the reference offset of '
         '(line, column) is the fragment\'s token - equal text (strings after continuation stripping, comma runs: a '
@@ -64,17 +64,63 @@ def collect(acc, opens, case, sources, printer_name, with_comments):
     return frags, refs
 
 
+def collect_nested(acc, opens, case, sources, printer_name, with_comments, where):
+    """the second program's tree (with its own sourcepath) is spliced as a statement into the first
+    statement list found inside the first program (function body / block), then the first tree is
+    printed: the walker's sourcepath stack must attribute every fragment to the right file"""
+    from calmjs.parse.walkers import Walker
+    trees, refs = [], []
+    for path, text in sources:
+        tree, ref = unparse.source_in_domain(acc, text, with_comments=with_comments)
+        if tree is None:
+            return None, None
+        tree.sourcepath = path
+        trees.append(tree)
+        refs.append(ref)
+    outer, inner = trees
+    hosts = [n for n in Walker().walk(outer) if type(n).__name__ in ('FuncDecl', 'FuncExpr', 'Block')]
+    if not hosts:
+        acc.skipped['no_host_for_nesting'] += 1
+        return None, None
+    host = hosts[where % len(hosts)]
+    lst = host.elements if hasattr(host, 'elements') else host.children()
+    if not isinstance(lst, list):
+        acc.skipped['no_host_for_nesting'] += 1
+        return None, None
+    lst.insert((where // 7) % (len(lst) + 1), inner)
+    try:
+        frags = [(None, f) for f in make_printer(printer_name)(outer)]
+    except Exception as e:
+        acc.fail(None, case, {'bucket': 'print_raises:' + type(e).__name__, 'error': repr(e)[:200]}, opens)
+        return None, None
+    return frags, refs
+
+
 def check_fragments(acc, opens, case, sources, frags, refs, printer_name):
     maps = [positions.LineMap(t) for _, t in sources]
     tok_at = [dict((k.start, k) for k in r.tokens) for r in refs]
     com_at = [dict((c[2], c) for c in r.comments) for r in refs]
     effective = None
     explicit = 0
+    nested = printer_name.endswith('_nested')
     semi_frags = [[] for _ in sources]
     for idx, (fi, f) in enumerate(frags):
         text, line, col, name, source = f
         if source is not None:
             effective = source
+        if fi is None:
+            # nested mode: the file is whatever the fragment (effectively) names; it must be one of ours
+            paths = [p for p, _ in sources]
+            if isinstance(line, int) and isinstance(col, int) and line > 0 and col > 0:
+                if effective not in paths:
+                    if not (source is None and text in ('{', '}', ';')):
+                        acc.fail(None, case, {'bucket': 'unknown_source', 'fragment': list(f)[:4] + [repr(source)],
+                                              'effective_source': repr(effective)}, opens)
+                        return None
+                    continue
+                fi = paths.index(effective)
+            else:
+                continue
         if not (isinstance(line, int) and isinstance(col, int) and line > 0 and col > 0):
             if text == ';':
                 semi_frags[fi].append((idx, None))
@@ -93,6 +139,23 @@ def check_fragments(acc, opens, case, sources, frags, refs, printer_name):
             # listed finding: counted; keep judging the rest of the stream as if the file were right
             effective = sources[fi][0]
         off = maps[fi].offset(line, col)
+        if nested and source is None and text in ('{', '}', ';'):
+            # layout-handler fragments carry no source (listed finding F-C08-1): after a nested file they
+            # inherit the nested file's name although they belong to the enclosing one.  If the position
+            # designates this very token in another of our files, count the finding and go on.
+            def on_token(j):
+                o = maps[j].offset(line, col)
+                return o is not None and o in tok_at[j] and tok_at[j][o].text == text
+            if not on_token(fi):
+                others = [j for j in range(len(sources)) if j != fi and on_token(j)]
+                if others:
+                    acc.fail('c08.leading_layout_fragment_source', case,
+                             {'bucket': 'wrong_source_nested', 'fragment': list(f)[:4], 'inherited': sources[fi][0],
+                              'belongs_to': sources[others[0]][0]}, opens)
+                    if 'c08.leading_layout_fragment_source' not in opens:
+                        return None
+                    fi = others[0]
+                    off = maps[fi].offset(line, col)
         if off is None:
             acc.fail(None, case, {'bucket': 'no_such_position', 'fragment': [text, line, col, name]}, opens)
             return None
@@ -148,9 +211,15 @@ def check_fragments(acc, opens, case, sources, frags, refs, printer_name):
     return explicit
 
 
-def check(acc, opens, sources, printer_name, with_comments, origin):
+def check(acc, opens, sources, printer_name, with_comments, origin, nested_at=None):
     case = {'sources': [list(s) for s in sources], 'printer': printer_name, 'with_comments': with_comments,
             'origin': origin}
+    if origin == 'nested' or (isinstance(origin, str) and origin.startswith('nested')):
+        case['nested_at'] = nested_at
+        frags, refs = collect_nested(acc, opens, case, sources, printer_name, with_comments, nested_at or 0)
+        if frags is None:
+            return None
+        return check_fragments(acc, opens, case, sources, frags, refs, printer_name + '_ds_nested')
     frags, refs = collect(acc, opens, case, sources, printer_name, with_comments)
     if frags is None:
         return None
@@ -159,7 +228,7 @@ def check(acc, opens, sources, printer_name, with_comments, origin):
 
 def replay(case, acc):
     check(acc, (), [tuple(s) for s in case['sources']], case['printer'], case.get('with_comments', False),
-          case.get('origin', 'replay'))
+          case.get('origin', 'replay'), case.get('nested_at'))
 
 
 PATHS = ['src/a.js', 'src/b.js', '/abs/lib/c.js']
@@ -179,9 +248,15 @@ def run_shard(shard):
     acc = Acc()
     opens = shard['open_signatures']
 
-    def one(texts, printer_name, wc, origin):
+    def one(texts, printer_name, wc, origin, nested_at=None):
         sources = [(PATHS[i], t) for i, t in enumerate(texts)]
-        n = check(acc, opens, sources, printer_name, wc, origin)
+        if nested_at is not None and len(texts) == 2:
+            origin = 'nested'
+        else:
+            nested_at = None
+        n = check(acc, opens, sources, printer_name, wc, origin, nested_at)
+        if origin == 'nested':
+            acc.label('nested_%s' % ('checked' if n else 'skipped'))
         lines = sum(positions.LineMap(t).nlines() for t in texts)
         acc.case((tuple(texts), printer_name, wc), bool(n) and n >= 12 and lines >= 3,
                  {'sources': texts, 'printer': printer_name, 'with_comments': wc, 'positioned_fragments': n})
@@ -192,8 +267,8 @@ def run_shard(shard):
     if shard['kind'] == 'g1':
         prog = gen_program.program_strategy(layout_levels=(1, 2, 3, 3), max_fuel=5).map(lambda p: p['text'])
         strat = st.tuples(st.lists(prog, min_size=1, max_size=3), st.sampled_from(PRINTERS + ['obf_ds']),
-                          st.booleans())
-        run_given(strat, lambda x: one(x[0], x[1], x[2], 'g1'), shard['n'], shard['hseed'], acc)
+                          st.booleans(), st.one_of(st.none(), st.integers(0, 500)))
+        run_given(strat, lambda x: one(x[0], x[1], x[2], 'g1', x[3]), shard['n'], shard['hseed'], acc)
     else:
         corpus = c03.load_corpus()
         for i, src in enumerate(corpus):
